@@ -7,6 +7,12 @@
 (* assembled; the chain is a function of the content (one NSEC per owner);  *)
 (* adding the chain's own NSEC records does not change the chain.  Every    *)
 (* behaviour is an S->I case with the expected collection after every step. *)
+(* Records are also taken out again (remove_all_by_name_class_rtype,        *)
+(* remove_first_by_name_class_rtype: by owner, optionally class and type)   *)
+(* and changed in place (update_data) before the chain is generated, and    *)
+(* the generated NSEC records are stripped and the chain generated afresh;  *)
+(* after every step the collection's observers (len, is_empty, find_soa,    *)
+(* find_apex_rtype) show the content.                                       *)
 EXTENDS Denial, Json
 
 la == <<97>>  lb == <<98>>  ex == <<101, 120>>
@@ -20,10 +26,20 @@ Range(s) == {s[i] : i \in 1..Len(s)}
 
 VARIABLES coll,      \* SortedRecords: a sequence
           content,   \* the set of records put in so far
-          phase, hist
-vars == <<coll, content, phase, hist>>
+          phase, hist,
+          edited,    \* a removal / update happened (at most one per behaviour)
+          stripped   \* the generated NSEC records have been removed again
+vars == <<coll, content, phase, hist, edited, stripped>>
 
-Init == coll = <<>> /\ content = {} /\ phase = 0 /\ hist = <<>>
+Init == coll = <<>> /\ content = {} /\ phase = 0 /\ hist = <<>> /\ edited = FALSE /\ stripped = FALSE
+
+\* what the observers show
+Obs(c) == [len |-> Len(c), empty |-> c = <<>>,
+           soa |-> \E i \in 1..Len(c) : c[i].t = T_SOA,
+           apexns |-> \E i \in 1..Len(c) : c[i].t = T_NS /\ NameEq(c[i].n, Apex)]
+Step(op, batch, c, chain, sel, found) ==
+  [op |-> op, batch |-> batch, coll |-> c, chain |-> chain, sel |-> sel, found |-> found, obs |-> Obs(c)]
+NoSel == [n |-> <<>>, class |-> 0, t |-> 0]
 
 \* From<Vec>: sort + dedup; extend(): push all, sort, dedup; insert(): binary
 \* search, refuse an equal record.  All three leave the sorted sequence of
@@ -31,8 +47,9 @@ Init == coll = <<>> /\ content = {} /\ phase = 0 /\ hist = <<>>
 Put(op, batch) ==
   /\ content' = content \cup Range(batch)
   /\ coll' = SortRecs(content')
-  /\ hist' = Append(hist, [op |-> op, batch |-> batch, coll |-> coll', chain |-> <<>>])
+  /\ hist' = Append(hist, Step(op, batch, coll', <<>>, NoSel, FALSE))
   /\ phase' = phase + 1
+  /\ UNCHANGED <<edited, stripped>>
 
 Batches == IF phase = 0 THEN First ELSE IF phase = 1 THEN Second ELSE {}
 BuildFrom   == phase = 0 /\ \E b \in First : Put("from", b)
@@ -46,15 +63,70 @@ GenExtend ==
   /\ phase \in {2, 3} /\ ~Chain.err
   /\ content' = content \cup NsecRecs(Chain.out)
   /\ coll' = SortRecs(content')
-  /\ hist' = Append(hist, [op |-> "gen_extend", batch |-> <<>>, coll |-> coll', chain |-> Chain.out])
+  /\ hist' = Append(hist, Step("gen_extend", <<>>, coll', Chain.out, NoSel, FALSE))
   /\ phase' = phase + 1
+  /\ UNCHANGED <<edited, stripped>>
 Gen ==
-  /\ phase = 4 /\ ~Chain.err
-  /\ hist' = Append(hist, [op |-> "gen", batch |-> <<>>, coll |-> coll, chain |-> Chain.out])
+  /\ phase = 4 /\ ~Chain.err /\ (edited => stripped)
+  /\ hist' = Append(hist, Step("gen", <<>>, coll, Chain.out, NoSel, FALSE))
   /\ phase' = 5
-  /\ UNCHANGED <<coll, content>>
+  /\ UNCHANGED <<coll, content, edited, stripped>>
+
+\* Selectors: owner name (any spelling), class (0 = any, 1 = IN, 3 = CH) and
+\* type (0 = any).  The collection holds class IN only.
+Sel(n, c, t) == [n |-> n, class |-> c, t |-> t]
+Matches(r, sel) == NameEq(r.n, sel.n) /\ sel.class \in {0, 1} /\ (sel.t = 0 \/ r.t = sel.t)
+Selectors ==
+  { Sel(<<la, ex>>, 1, T_A), Sel(<<<<66>>, <<69, 88>>>>, 0, T_NS),   \* "B.EX": un-delegates b.ex
+    Sel(Apex, 1, T_NS), Sel(<<Star, ex>>, 0, 0), Sel(<<lb, ex>>, 1, 0),
+    Sel(<<la, lb, ex>>, 0, T_A), Sel(<<la, ex>>, 3, T_A), Sel(<<la, ex>>, 1, T_TXT),
+    Sel(<<<<99>>, ex>>, 0, 0) }
+\* remove_all_by_name_class_rtype: every matching record goes, the result
+\* says whether there was one
+\* (the content at this point is the same however it was assembled: edits are
+\* explored on the behaviours that started with From<Vec>)
+CanEdit == phase = 2 /\ ~edited /\ hist[1].op = "from"
+RemoveAll ==
+  /\ CanEdit
+  /\ \E sel \in Selectors :
+        LET gone == {r \in content : Matches(r, sel)}
+        IN /\ content' = content \ gone
+           /\ coll' = SortRecs(content')
+           /\ hist' = Append(hist, Step("remove_all", <<>>, coll', <<>>, sel, gone # {}))
+  /\ edited' = TRUE
+  /\ UNCHANGED <<phase, stripped>>
+\* remove_first_by_name_class_rtype: one matching record goes; which one is
+\* only determined when the selector names the type (one record per owner
+\* and type here)
+RemoveFirst ==
+  /\ CanEdit
+  /\ \E sel \in {x \in Selectors : x.t # 0} :
+        LET gone == {r \in content : Matches(r, sel)}
+        IN /\ content' = content \ gone
+           /\ coll' = SortRecs(content')
+           /\ hist' = Append(hist, Step("remove_first", <<>>, coll', <<>>, sel, gone # {}))
+  /\ edited' = TRUE
+  /\ UNCHANGED <<phase, stripped>>
+\* update_data: the data of the first record the matcher accepts is
+\* replaced; owner, class and type -- all the chain depends on -- stay
+UpdateData ==
+  /\ CanEdit
+  /\ \E sel \in {x \in Selectors : x.t # 0 /\ x.class = 1} :
+        hist' = Append(hist, Step("update", <<>>, coll, <<>>, sel, \E r \in content : Matches(r, sel)))
+  /\ edited' = TRUE
+  /\ UNCHANGED <<coll, content, phase, stripped>>
+\* after two rounds of generate + extend: take the NSEC records out again,
+\* owner by owner (remove_all with type NSEC); the zone's own records remain
+StripNsecs ==
+  /\ phase = 4 /\ ~stripped
+  /\ content' = {r \in content : r.t # T_NSEC}
+  /\ coll' = SortRecs(content')
+  /\ hist' = Append(hist, Step("strip_nsec", <<>>, coll', <<>>, NoSel, \E r \in content : r.t = T_NSEC))
+  /\ stripped' = TRUE
+  /\ UNCHANGED <<phase, edited>>
 
 Next == BuildFrom \/ BuildExtend \/ BuildInsert \/ GenExtend \/ Gen
+        \/ RemoveAll \/ RemoveFirst \/ UpdateData \/ StripNsecs
 Spec == Init /\ [][Next]_vars
 
 CollectionIsSortedContent == coll = SortRecs(content) /\ IsSortedRecs(coll)
@@ -71,6 +143,7 @@ ChainJ(c) == [i \in 1..Len(c) |-> [owner |-> c[i].owner, next |-> c[i].next,
 Emit == phase = 5 =>
   PrintT("CASE " \o ToJson(
     [in  |-> [kind |-> "zonebuild", apex |-> Apex,
-              ops |-> [i \in 1..Len(hist) |-> [op |-> hist[i].op, batch |-> hist[i].batch]]],
-     exp |-> [steps |-> [i \in 1..Len(hist) |-> [coll |-> hist[i].coll, chain |-> ChainJ(hist[i].chain)]]]]))
+              ops |-> [i \in 1..Len(hist) |-> [op |-> hist[i].op, batch |-> hist[i].batch, sel |-> hist[i].sel]]],
+     exp |-> [steps |-> [i \in 1..Len(hist) |-> [coll |-> hist[i].coll, chain |-> ChainJ(hist[i].chain),
+                                                 found |-> hist[i].found, obs |-> hist[i].obs]]]]))
 =============================================================================
